@@ -25,7 +25,7 @@ def run(ck, replay=None):
     sample = list(cases)
     rng.shuffle(sample)
     jobs = []
-    for k, c in enumerate(sample[:(300 if quick else 6000)]):
+    for k, c in enumerate(sample[:(300 if quick else 2000)]):
         for v in ('top', 'fn', 'nest'):
             jobs.append({'id': len(jobs) + 1, 'src': L.render(c, len(jobs) + 1, v, rng)})
     SU.run_binding(ck, jobs, perturb=ck.seed * 100 + 3, tag='su')
